@@ -65,7 +65,7 @@ def corrupt(rng, st):
     gs = [g for g in s["groups"]]
     g = rng.choice(gs)
     finals = [e for e in g["entries"] if e["kind"] == "final"]
-    k = rng.randrange(26)
+    k = rng.randrange(28)
     if k == 0 and finals:
         rng.choice(finals)["has_data"] = False
         return "data file deleted", s
@@ -157,6 +157,13 @@ def corrupt(rng, st):
         g["extra"].append({"name": bname(b["day"], b["time"]) + rng.choice([".old", "~", " (copy)", "-broken", ".1"]), "dir": True, "kind": "junk",
                            "copy_of": b})
         return "suffixed copy of a backup", s
+    if k == 26:
+        # a directory in the root named like a group, but in decimal digits that are not ASCII (Arabic-Indic, fullwidth): not a name vsb gives
+        s["root_extra"].append({"name": rng.choice(["\u0662\u0660\u0662\u0663.\u0661\u0661.\u0660\u0661", "\uff12\uff10\uff12\uff13.11.01", "2023.11.0\u0661"]), "dir": True, "junk": True})
+        return "group-like directory in non-ASCII digits at root", s
+    if k == 27:
+        g["extra"].append({"name": bname(g["day"], 36000)[:-2] + rng.choice(["\u0660\u0660", "\uff10\uff10", "0\u0969"]), "dir": True, "kind": "junk"})
+        return "backup-like directory in non-ASCII digits in a group", s
     return "none", s
 
 
@@ -229,7 +236,9 @@ def run(ctx):
                 "reordered / removed / added, no lines, garbage / truncated / unparsable manifest, stray visible / hidden entries at root and "
                 "group level, abandoned temporary, backup renamed to another date, empty group, file with a backup name; age check: newest "
                 "backup at threshold -1 s / exactly / +1 s for m / h / d thresholds, no threshold, no backups, future backup, empty trailing "
-                "groups. Non-trivial: at least one corruption or an age case; distinct by content." % n)
+                "groups; name classification: a healthy storage plus one entry (directory / file, at the root / in the group) whose name is a group or "
+                "backup name with one character replaced, dropped or doubled, with prefixes / suffixes, in non-ASCII digits - listing vs the NameClass model. "
+                "Non-trivial: at least one corruption or an age case; distinct by content." % n)
     storages = []
     for _ in range(n):
         st = gen_healthy(rng)
@@ -290,6 +299,9 @@ def run(ctx):
                           "the predicate says %s (%d storages differ)" % (labels or "no corruption", r[1:3] if r[0] == 0 else "listing failed", m[1:3], ndiff),
                           {"corruptions": labels, "storage": real_spec(st), "model_storage": sexp.dumps(model_storage(st))})
         big_manifest_part(ctx, sb)
+        if not ctx.has_failing_input():
+            from vlib import namerun
+            namerun.run(ctx, sb)
         age_part(ctx, sb)
         if not ctx.has_failing_input():
             build.ensure_vsb()
@@ -297,7 +309,8 @@ def run(ctx):
     finally:
         sb.close()
     runs_part(ctx)
-    ctx.assumptions += ["regex crate matches the two name patterns as written (they are transcribed into the generator's classification)",
+    ctx.assumptions += ["regex crate matches the two name patterns as written (the classification they induce is the Gallina model NameClass, compared with the real "
+                        "listing on names around the two shapes - vlib/namerun.py)",
                         "zstd decoding fails on garbage / truncated input (observed)"]
 
 
